@@ -167,7 +167,7 @@ func mkCert(issuer int, serial *big.Int, subjectCN string) []byte {
 	iss := stdpkix.Name{CommonName: in.CommonName, Organization: in.Organization}
 	tmpl := &stdx509.Certificate{SerialNumber: serial, Subject: stdpkix.Name{CommonName: subjectCN},
 		NotBefore: time.Unix(1600000000, 0), NotAfter: time.Unix(1900000000, 0)}
-	parent := &stdx509.Certificate{Subject: iss, SerialNumber: big.NewInt(1)}
+	parent := &stdx509.Certificate{Subject: iss, RawSubject: nameDER[issuer], SerialNumber: big.NewInt(1)}
 	der, err := stdx509.CreateCertificate(nil, tmpl, parent, priv.Public(), priv)
 	if err != nil {
 		panic(err)
@@ -177,10 +177,15 @@ func mkCert(issuer int, serial *big.Int, subjectCN string) []byte {
 
 // ---------- Coq printers ----------
 func str(s string) string { return vh.Bytes([]byte(s)) }
+
+// big numbers are printed in hexadecimal: Coq parses decimal literals in quadratic time
 func bigZ(x *big.Int) string {
-	return vh.BigZ(x)
+	if x.Sign() < 0 {
+		return "(-0x" + new(big.Int).Neg(x).Text(16) + ")%Z"
+	}
+	return "0x" + x.Text(16) + "%Z"
 }
-func bigN(x *big.Int) string { return x.String() + "%N" }
+func bigN(x *big.Int) string { return "0x" + x.Text(16) + "%N" }
 func optZ(x *big.Int) string {
 	if x == nil {
 		return "None"
@@ -223,7 +228,14 @@ func (r *runner) crlset(in input) {
 		}
 	}
 	obs := "None"
-	var qterms []string
+	var qterms, cur []string
+	lastKey := ""
+	flushQ := func() {
+		if len(cur) > 0 {
+			qterms = append(qterms, vh.Pair(str(lastKey), vh.List(cur)))
+			cur = nil
+		}
+	}
 	if err == nil {
 		keys := make([]string, 0, len(set.IssuerLists))
 		for k := range set.IssuerLists {
@@ -254,7 +266,11 @@ func (r *runner) crlset(in input) {
 			if e != nil {
 				got = e.SerialNumber
 			}
-			qterms = append(qterms, vh.Pair(bigZ(ser), str(q.Key), optZ(got)))
+			if q.Key != lastKey || len(qterms) == 0 {
+				flushQ()
+				lastKey = q.Key
+			}
+			cur = append(cur, vh.Pair(bigZ(ser), optZ(got)))
 			// oracle: exactly when the encoded set revokes it
 			if in.Model != nil {
 				want := false
@@ -277,7 +293,8 @@ func (r *runner) crlset(in input) {
 	} else if len(raw) > 4 {
 		nt = fmt.Sprintf("crlset-bad|%x", sha256.Sum256(raw))
 	}
-	r.c.Case(r.st, vh.App("CCrlSet", in.Raw.coq(), jsonTerm, obs, vh.List0(qterms, "(Z * bytes * option Z)")), in, nt)
+	flushQ()
+	r.c.Case(r.st, vh.App("CCrlSet", in.Raw.coq(), jsonTerm, obs, vh.List0(qterms, "(bytes * list (Z * option Z))")), in, nt)
 	if in.Model != nil {
 		m := in.Model
 		bad := ""
@@ -342,7 +359,10 @@ func genSerial(c *vh.Ctx) []byte {
 	case 3:
 		return c.Bytes(20)
 	case 4:
-		return bytes.Repeat([]byte{0xff}, 255)
+		if c.Intn(3) == 0 {
+			return bytes.Repeat([]byte{0xff}, 255)
+		}
+		return c.Bytes(33)
 	default:
 		return c.Bytes(1 + c.Intn(9))
 	}
@@ -393,9 +413,20 @@ func (r *runner) genCRLSets(c *vh.Ctx, n int) {
 			keys = append(keys, strings.ToUpper(k), k[:63])
 		}
 		keys = append(keys, m.Blocked...)
-		for _, k := range keys {
+		for ki, k := range keys {
 			seen := map[string]bool{}
-			for _, s := range all {
+			// a listed issuer: its own serials, one of another issuer, 0, 1, a random one;
+			// any other key: a few serials
+			ser := append([]string{}, all[len(all)-3:]...)
+			if ki < len(m.Issuers) {
+				ser = append(ser, m.Serials[k]...)
+				if o := m.Serials[m.Issuers[(ki+1)%len(m.Issuers)]]; len(o) > 0 {
+					ser = append(ser, o[0])
+				}
+			} else if len(all) > 3 {
+				ser = append(ser, all[0])
+			}
+			for _, s := range ser {
 				v, _ := new(big.Int).SetString(s, 10)
 				for _, qs := range []string{s, new(big.Int).Add(v, big.NewInt(1)).String(), new(big.Int).Neg(v).String()} {
 					if !seen[qs] {
@@ -509,6 +540,9 @@ func refSSTBlobs(b []byte) [][]byte {
 			break
 		}
 		if len(b) < 12 {
+			if id == 32 {
+				out = append(out, []byte{}) // cut inside the entry header: an empty blob is what a lenient reader would see
+			}
 			break
 		}
 		l := int(binary.LittleEndian.Uint32(b[8:]))
@@ -576,7 +610,14 @@ func (r *runner) sst(in input) {
 		}
 	}
 	obs := "None"
-	var qterms []string
+	var qterms, cur []string
+	lastIss := 0
+	flushQ := func() {
+		if len(cur) > 0 {
+			qterms = append(qterms, vh.Pair(str(names[lastIss].String()), vh.List(cur)))
+			cur = nil
+		}
+	}
 	if err == nil {
 		keys := make([]string, 0, len(d.IssuerLists))
 		for k := range d.IssuerLists {
@@ -601,7 +642,11 @@ func (r *runner) sst(in input) {
 			if e != nil {
 				got = e.SerialNumber
 			}
-			qterms = append(qterms, vh.Pair(str(names[q.Issuer].String()), bigZ(ser), optZ(got)))
+			if q.Issuer != lastIss || len(qterms)+len(cur) == 0 {
+				flushQ()
+				lastIss = q.Issuer
+			}
+			cur = append(cur, vh.Pair(bigZ(ser), optZ(got)))
 			if in.Model != nil {
 				want := false
 				for _, s := range in.Model.Serials[fmt.Sprint(q.Issuer)] {
@@ -613,6 +658,7 @@ func (r *runner) sst(in input) {
 			}
 		}
 	}
+	flushQ()
 	nt := ""
 	if err == nil && len(d.IssuerLists) > 0 {
 		nt = fmt.Sprintf("sst|%x", sha256.Sum256(raw))
@@ -620,7 +666,7 @@ func (r *runner) sst(in input) {
 		nt = fmt.Sprintf("sst-bad|%x", sha256.Sum256(raw))
 	}
 	r.c.Case(r.st, vh.App("CSst", vh.List0(blobTerms, "bytes"), vh.List0(chunkTerms, "chunk"), vh.List0(parsed, "(nat * option (bytes * Z))"),
-		vh.List0(extra, "(bytes * option (bytes * Z))"), obs, vh.List0(qterms, "(bytes * Z * option Z)")), in, nt)
+		vh.List0(extra, "(bytes * option (bytes * Z))"), obs, vh.List0(qterms, "(bytes * list (Z * option Z))")), in, nt)
 	if in.Model != nil {
 		m := in.Model
 		bad := ""
@@ -854,7 +900,11 @@ func (r *runner) onecrl(in input) {
 			default:
 				res, kind = vh.App("OBySerial", bigN(e.SerialNumber)), "serial"
 			}
-			qterms = append(qterms, vh.Pair(vh.Bytes(cert.RawSubject), vh.Bytes(spkiHash[q.PubKey]), str(names[q.Issuer].String()), bigZ(ser), res))
+			si := q.Subj
+			if si < 0 {
+				si = len(names) // out of range: no raw subject
+			}
+			qterms = append(qterms, vh.Pair(vh.Nat(si), vh.Nat(q.PubKey), vh.Nat(q.Issuer), bigZ(ser), res))
 			if in.Model != nil {
 				wantKey := false
 				for _, b := range in.Model.Blocked {
@@ -882,8 +932,16 @@ func (r *runner) onecrl(in input) {
 	} else if len(doc.Data) > 0 {
 		nt = fmt.Sprintf("onecrl-bad|%x", sha256.Sum256([]byte(in.Doc)))
 	}
+	var subjT, hashT, issT []string
+	for i := range names {
+		subjT = append(subjT, vh.Bytes(nameDER[i]))
+		issT = append(issT, str(names[i].String()))
+	}
+	for _, h := range spkiHash {
+		hashT = append(hashT, vh.Bytes(h))
+	}
 	r.c.Case(r.st, vh.App("COneCrl", vh.List0(recTerms, "(bool * bool * option bytes * option bytes * N * option bytes)"), obs,
-		vh.List0(qterms, "(bytes * bytes * bytes * Z * ocheck)")), in, nt)
+		vh.List(subjT), vh.List(hashT), vh.List(issT), vh.List0(qterms, "(nat * nat * nat * Z * ocheck)")), in, nt)
 	if in.Model != nil {
 		m := in.Model
 		bad := ""
@@ -1021,9 +1079,9 @@ func (r *runner) run(in input) {
 
 func gen(c *vh.Ctx) {
 	r := &runner{c: c, st: "case"}
-	n := 60
+	n := 40
 	if c.Thorough {
-		n = 1200
+		n = 400
 	}
 	r.hexes(c)
 	r.genCRLSets(c, n)
